@@ -301,8 +301,7 @@ func TestC15_P_ShardedDirs(t *testing.T) {
 		st := NewStore()
 		var root cid.Cid
 		src := rapid.SampledFrom([]string{"builder", "reference"}).Draw(t, "source")
-		names, _ := genNames(t, nameOpts{Max: maxN})
-		fanout := genFanout(t)
+		names, _, fanout := genNamesFanout(t, nameOpts{Max: maxN})
 		if src == "builder" {
 			es := make([]entrySpec, len(names))
 			for i, n := range names {
@@ -366,6 +365,9 @@ func TestC15_P_ShardedDirs(t *testing.T) {
 				rn, cerr = loadReified(ls, root, reifier)
 				if cerr != nil {
 					return
+				}
+				if tr, err := st.ShardTree(root); err == nil && rapid.IntRange(0, 2).Draw(t, "faultyPast") == 0 {
+					hist += faultyPast(t, st, rn, tr, names) + " "
 				}
 				for i := 0; i < nops; i++ {
 					switch rapid.IntRange(0, 3).Draw(t, "historyOp") {
